@@ -160,13 +160,27 @@ def mutex_wrapped_check(chk, tier):
     chk.sample({'mutex_wrapped_history': hists[len(hists) // 2]})
     from concurrent.futures import ThreadPoolExecutor  # pylint: disable=import-outside-toplevel
 
+    stop = [0]
+
     def one(hist):
+        if stop[0] >= 5:
+            return hist, None, ''
         lines = [f'{step["a"]} {step["t"]}' for step in hist]
-        proc = subprocess.run([exe], input='\n'.join(lines) + '\nquit\n', capture_output=True, text=True, timeout=120, check=False)
-        return hist, [json.loads(ln) for ln in proc.stdout.splitlines() if ln.startswith('{')], proc.stdout
+        try:
+            proc = subprocess.run([exe], input='\n'.join(lines) + '\nquit\n', capture_output=True, text=True, timeout=100, check=False)
+            out = proc.stdout
+        except subprocess.TimeoutExpired as exc:
+            out = exc.stdout.decode() if isinstance(exc.stdout, bytes) else (exc.stdout or '')
+            stop[0] += 1
+        got = [json.loads(ln) for ln in out.splitlines() if ln.startswith('{')]
+        if len(got) < len(hist) or any(g.get('overlap') for g in got):
+            stop[0] += 1
+        return hist, got, out
     nbad = 0
     with ThreadPoolExecutor(max_workers=min(core.NCPU, 12)) as pool:
         for hist, got, raw in pool.map(one, hists):
+            if got is None:
+                continue
             chk.count(('mw', json.dumps(hist)))
             chk.traces += 1
             if nbad >= 5:
@@ -197,13 +211,75 @@ def check_c11(tier, seed):
                 'delivery holds the lock; the same binary runs free under ThreadSanitizer with three clients cycling '
                 'claim/release against out-events; MutexWrapped.tla behaviours are replayed on the generated helper.')
     h_listed, i_listed = listed('H'), listed('I')
-    # (a) the design: exhaustive TLC on the shipped behaviour with the weakened property
-    for cfg in (['MultiClientConc_shipped.cfg', 'MultiClientConc_shipped3.cfg'] if h_listed and i_listed else []):
-        chk.tlc('MultiClientConc', cfg, timeout=1200)
+    name, decls, cfg, grant = fixed_models()[1]
+    prog = cxx.Program(decls, cfg, flags=['-DVERIF_LOCK_YIELD', '-ldl'])
+    if not prog.compile():
+        chk.violation('multi-client program does not compile: ' + (prog.error or '')[:300], {'cfg': cfg}, {'kind': 'compile-error'})
+        return chk.finish()
+    chk.programs += 1
+    # (c) conformance first: which design does the code under test implement?  MultiClientConc.tla carries the shipped
+    # design and the one in which Deselect(id) only lets go of client id (known finding H repaired); the schedules of the
+    # first design that the real threads follow in every step decide which model the rest of the check talks about.
+    designs = [('shipped', 'MultiClientConc_replay2.cfg' if tier == 'thorough' else 'MultiClientConc_replay.cfg',
+                ['MultiClientConc_shipped.cfg', 'MultiClientConc_shipped3.cfg'], 'MultiClientConc_classify.cfg'),
+               ('deselect-checks-identity', 'MultiClientConc_replay_h.cfg', ['MultiClientConc_shipped3_h.cfg'],
+                'MultiClientConc_classify_h.cfg')]
+    from concurrent.futures import ThreadPoolExecutor  # pylint: disable=import-outside-toplevel
+    chosen, first_failures = None, None
+    for dname, rcfg, safety_cfgs, classify_cfg in designs:
+        res = chk.tlc('MultiClientConc', rcfg, timeout=1200)
+        cases = res.emitted()
+        keys = {json.dumps(c['hist']) for c in cases}
+        prefixes = set()
+        for c in cases:
+            for k in range(1, len(c['hist'])):
+                prefixes.add(json.dumps(c['hist'][:k]))
+        maximal = [c for c in cases if json.dumps(c['hist']) not in prefixes]
+        nbad_box = [0]
+
+        def guarded(case):
+            if nbad_box[0] >= 8:
+                return [], []
+            out = replay((prog, case))
+            if out[0]:
+                nbad_box[0] += 1
+            return out
+        failures, strict_hits = [], []
+        with ThreadPoolExecutor(max_workers=min(core.NCPU, 10)) as pool:
+            for case, (bad, strict) in zip(maximal, pool.map(guarded, maximal)):
+                if dname == 'shipped':
+                    chk.count(('schedule', json.dumps(case['hist'])))
+                    chk.traces += 1
+                strict_hits.extend((case, hit) for hit in strict[:1])
+                if bad:
+                    failures.append((case, bad[0]))
+        if first_failures is None:
+            first_failures = (failures, strict_hits, maximal, keys)
+        if not failures:
+            chosen = (dname, safety_cfgs, classify_cfg, strict_hits, maximal, keys)
+            break
+    if chosen is None:
+        failures, strict_hits, maximal, keys = first_failures
+        dname, safety_cfgs, classify_cfg = designs[0][0], designs[0][2], designs[0][3]
+        for case, (clause, exp, got) in failures[:8]:
+            chk.violation(f'schedule replayed on real threads: {clause}: model expects {str(exp)[:200]}, observed {str(got)[:300]}',
+                          {'schedule': [f'{h["a"]}({h["c"]})' for h in case['hist']], 'cfg': cfg, 'decls': decls})
+    else:
+        dname, safety_cfgs, classify_cfg, strict_hits, maximal, keys = chosen
+    chk.extra['design_the_code_conforms_to'] = dname if chosen else 'none (violations reported against the shipped design)'
+    chk.sample({'schedule': [f'{h["a"]}({h["c"]})' for h in maximal[len(maximal) // 2]['hist']]})
+    chk.extra['model_states'] = len(keys)
+    chk.extra['schedules_replayed'] = len(maximal)
+    for case, hit in strict_hits:
+        chk.violation(f'real threads: out-event delivered to {hit["delivered"]} while the holder is {hit["holder"]} '
+                      f'after {hit["history"]}', {'schedule': hit['history'], 'cfg': cfg}, {'kind': hit['kind']})
+    # (a) the design the code conforms to: exhaustive TLC for mutual exclusion, delivery under the lock, no deadlock
+    for mcfg in safety_cfgs:
+        chk.tlc('MultiClientConc', mcfg, timeout=1200)
     # what a small change of the same design achieves: the strict property holds
     chk.tlc('MultiClientConc', 'MultiClientConc_fixed.cfg', timeout=1200)
-    # (b) strict property on the shipped design: every counterexample must be one of the listed windows
-    res = chk.tlc('MultiClientConc', 'MultiClientConc_classify.cfg', timeout=1200)
+    # (b) the strict property on that design: every counterexample must be one of the listed windows
+    res = chk.tlc('MultiClientConc', classify_cfg, timeout=1200)
     kinds = {'I': 0, 'H': 0}
     lines = res.out.splitlines()
     for i, line in enumerate(lines):
@@ -213,53 +289,11 @@ def check_c11(tier, seed):
                     kinds[k] += 1
     chk.extra['model_states_violating_strict_property'] = kinds
     if kinds['I']:
-        chk.violation('MultiClientConc.tla (shipped design): an out-event between the granted claim and Select(id) misses the holder',
-                      {'spec': 'MultiClientConc_classify.cfg', 'states': kinds['I']}, {'kind': 'out-event-between-grant-and-select'})
+        chk.violation(f'MultiClientConc.tla ({dname} design): an out-event between the granted claim and Select(id) misses the holder',
+                      {'spec': classify_cfg, 'states': kinds['I']}, {'kind': 'out-event-between-grant-and-select'})
     if kinds['H']:
-        chk.violation('MultiClientConc.tla (shipped design): a Deselect by a client that is not the holder clears the holder\'s selection',
-                      {'spec': 'MultiClientConc_classify.cfg', 'states': kinds['H']}, {'kind': 'deselect-by-non-holder'})
-    # (c) conformance: replay on real threads
-    name, decls, cfg, grant = fixed_models()[1]
-    prog = cxx.Program(decls, cfg, flags=['-DVERIF_LOCK_YIELD', '-ldl'])
-    if not prog.compile():
-        chk.violation('multi-client program does not compile: ' + (prog.error or '')[:300], {'cfg': cfg}, {'kind': 'compile-error'})
-        return chk.finish()
-    chk.programs += 1
-    rcfg = 'MultiClientConc_replay.cfg' if (h_listed and i_listed) else 'MultiClientConc_replay_fixed.cfg'
-    if tier == 'thorough' and h_listed and i_listed:
-        rcfg = 'MultiClientConc_replay2.cfg'
-    res = chk.tlc('MultiClientConc', rcfg, timeout=1200)
-    cases = res.emitted()
-    keys = {json.dumps(c['hist']) for c in cases}
-    prefixes = set()
-    for c in cases:
-        for k in range(1, len(c['hist'])):
-            prefixes.add(json.dumps(c['hist'][:k]))
-    maximal = [c for c in cases if json.dumps(c['hist']) not in prefixes]
-    chk.sample({'schedule': [f'{h["a"]}({h["c"]})' for h in maximal[len(maximal) // 2]['hist']]})
-    chk.extra['model_states'] = len(keys)
-    chk.extra['schedules_replayed'] = len(maximal)
-    from concurrent.futures import ThreadPoolExecutor  # pylint: disable=import-outside-toplevel
-    nbad = 0
-    nbad_box = [0]
-
-    def guarded(case):
-        if nbad_box[0] >= 8:
-            return [], []
-        return replay((prog, case))
-    with ThreadPoolExecutor(max_workers=min(core.NCPU, 10)) as pool:
-        for case, (bad, strict) in zip(maximal, pool.map(guarded, maximal)):
-            nbad_box[0] = nbad
-            chk.count(('schedule', json.dumps(case['hist'])))
-            chk.traces += 1
-            for hit in strict[:1]:
-                chk.violation(f'real threads: out-event delivered to {hit["delivered"]} while the holder is {hit["holder"]} '
-                              f'after {hit["history"]}', {'schedule': hit['history'], 'cfg': cfg}, {'kind': hit['kind']})
-            if bad and nbad < 8:
-                nbad += 1
-                clause, exp, got = bad[0]
-                chk.violation(f'schedule replayed on real threads: {clause}: model expects {str(exp)[:200]}, observed {str(got)[:300]}',
-                              {'schedule': [f'{h["a"]}({h["c"]})' for h in case['hist']], 'cfg': cfg, 'decls': decls})
+        chk.violation(f'MultiClientConc.tla ({dname} design): a Deselect by a client that is not the holder clears the holder\'s selection',
+                      {'spec': classify_cfg, 'states': kinds['H']}, {'kind': 'deselect-by-non-holder'})
     # (d) data races / deadlock: the same program free-running under ThreadSanitizer
     tsan = cxx.Program(decls, cfg, flags=['-fsanitize=thread', '-g', '-O1'])
     if tsan.compile():
